@@ -47,7 +47,9 @@ def variant(code, draw):
         return kind, ''.join(out)
     if kind == 'space-insert':
         i = draw(len(code) + 1)
-        return kind, code[:i] + ' ' + code[i:]
+        # usually a blank; now and then another white-space character the patterns' \s admits (tab, no-break space ...)
+        ws = ' ' if draw(3) else ['\t', '\u00a0', '\u2003', '\x0b'][draw(4)]
+        return kind, code[:i] + ws + code[i:]
     if kind == 'space-delete':
         idx = [i for i, ch in enumerate(code) if ch.isspace()]
         i = idx[draw(len(idx))]
@@ -95,3 +97,16 @@ def variant(code, draw):
             new = num + ('.0' if k < 2 else '.00' if k == 2 else '.')
         return kind + ':' + g, code[:a] + txt[:nm.start()] + new + txt[nm.end():] + code[b:]
     return kind, code
+
+
+def variant_chain(code, draw, steps=2):
+    """`steps` transformations in a row (a trailing zero AND an odd blank AND another case ...): each intermediate must still
+    be a code, otherwise the chain stops at the last spelling that is one.  Returns (kinds joined by '+', spelling)."""
+    kinds, cur = [], code
+    for _ in range(steps):
+        k, v = variant(cur, draw)
+        if k is None or v == cur or not codes.PAT_EVENT_CODE.match(v.strip()):
+            break
+        kinds.append(k)
+        cur = v
+    return '+'.join(kinds) or None, cur
